@@ -876,7 +876,7 @@ def run_shard(params, R):
         R.sample({"family": item[0], "fw": fw, "case": case}, kind=item[0], every=211)
     # random histories
     rng = random.Random((seed * 1000003 + part * 7919 + (0 if fw == "tx" else 104729)) & 0xFFFFFFFF)
-    n = 900 if tier == "quick" else 5000
+    n = 900 if tier == "quick" else 10000
     for i in range(n):
         case = gen_history(rng)
         M.execute(case, R, fw)
